@@ -3,7 +3,7 @@
 //@ tu: libxcm/core/xcm_addr_compat.c
 //@ defs: -DXV_F=$F
 //@ enforce: $F
-//@ replace: $R
+//@ replace: xcm_addr_parse_ux xcm_addr_make_ux
 //@ props: C12
 //@ expect: postcondition>=1 canary=2
 /* loop-free; the new-API function is its contract (jobs addrpub.parse_ux_wrap@ux / addrpub.make_ux_wrap@ux) */
@@ -12,6 +12,7 @@ void harness(void)
 {
     xv_ghost_havoc();
     xv_addrpub_havoc();
+    XV_KEEP(xcm_addr_parse_ux) XV_KEEP(xcm_addr_make_ux)
     char *p1; char *p2; size_t cap;
     int rv = XV_F(p1, p2, cap);
     if (rv == 0) XV_CANARY("success");
